@@ -170,6 +170,9 @@ class World18:
         self.disc_flags: list = []
         self.freeze = False
         self.k0 = -1
+        self.fail_sync = False  # the latest failed attempt never suspended
+        self.fail_attempt = -1
+        self.mdns_attempt = -1  # index of the latest attempt that a record batch triggered
         # monitor state
         self.stopped = True  # never started == stopped
         self.stop_called = True
@@ -203,8 +206,10 @@ class World18:
         )
 
     # ---- bookkeeping ----------------------------------------------------------------------------
-    def bad(self, why: str) -> None:
-        self.viol.append(f"t={self.loop.time()}: {why}")
+    def bad(self, why: str, signature=None) -> None:
+        msg = f"t={self.loop.time()}: {why}"
+        if not track.fail(msg, signature):  # True: listed as an open known finding (suppressed)
+            self.viol.append(msg)
 
     def now(self):
         return self.loop.time()
@@ -241,6 +246,8 @@ class World18:
     def attempt_failed(self, exc, kind: int) -> None:
         t = self.now()
         self.failures.append((t, exc))
+        self.fail_sync = (self.d1 == 0) if kind in START_PHASE else (self.d1 == 0 and self.d2 == 0)
+        self.fail_attempt = len(self.attempts) - 1
         self.n_total += 1
         for s in self.starts:
             s[0] += 1
@@ -381,10 +388,16 @@ class World18:
             self.stop_called = True
             self.obligation = None
             self._spawn(self._stop(self.epoch))
+        if ev in (E_MDNS_PTR, E_MDNS_A) and len(self.attempts) > n_before:
+            self.mdns_attempt = len(self.attempts) - 1
         if self.settle:
             loop.run_ready()
             if ev in (E_MDNS_PTR, E_MDNS_A) and waiting and quiet and len(self.attempts) == n_before:
-                self.bad("matching mDNS record seen while waiting did not start an attempt immediately")
+                sig = None
+                if self.fail_sync and self.fail_attempt == n_before - 1 and self.mdns_attempt == n_before - 1:
+                    # the previous attempt was itself started by a record and failed without ever suspending
+                    sig = SIG_SYNC
+                self.bad("matching mDNS record seen while waiting did not start an attempt immediately", sig)
             if ev == E_MDNS_NON and quiet and len(self.attempts) != n_before:
                 self.bad("a record that does not belong to the device triggered an attempt")
             self.check_settled()
@@ -471,6 +484,7 @@ class World18:
 
 
 RL_COOLDOWN = 5.0  # the statement's cool-down (not read from the code)
+SIG_SYNC = "C18/mdns-ignored-while-waiting/after-record-triggered-attempt-failed-synchronously"
 
 
 def h18a_scenario(ev: List[int], oc: List[int]) -> bool:
@@ -490,20 +504,20 @@ def h18a_scenario(ev: List[int], oc: List[int]) -> bool:
                 return True
             w.do(e)
             if w.viol:
-                return track.fail("; ".join(w.viol))
+                return False
         for step in range(NEVENTS):
             e = EVTAB[concretize(ev[step], len(EVTAB) - 1)]
             if not w.enabled(e):
                 break  # a disabled event ends the sequence (the shorter sequence is checked in full)
             w.do(e)
             if w.viol:
-                return track.fail("; ".join(w.viol))
+                return False
         w.finish()
         if len(w.attempts) > 0:
             if track.reached():
                 return False
         if w.viol:
-            return track.fail("; ".join(w.viol))
+            return False
         return True
     finally:
         w.close()
@@ -524,7 +538,13 @@ def h18b_chain(kinds: List[int], last: int) -> bool:
     table = shard_ints("KINDS", "1,2,3,4,5,6,7")
     w = World18([], [K_OK], shard_int("D1", 0), shard_int("D2", 0), shard_int("NAME", 0), shard_int("ZC", 0), True)
     try:
-        ks = [table[concretize(k, len(table) - 1)] for k in kinds]
+        kind0 = shard_int("KIND0", -1)
+        ks = []
+        for i in range(NCHAIN):
+            if i == 0 and kind0 >= 0:
+                ks.append(kind0)
+            else:
+                ks.append(table[concretize(kinds[i], len(table) - 1)])
         ks.append(K_OK)
         w.oc = list(range(len(ks)))
         w.outcomes = ks
@@ -560,7 +580,7 @@ def h18b_chain(kinds: List[int], last: int) -> bool:
         if track.reached():
             return False
         if w.viol:
-            return track.fail("; ".join(w.viol))
+            return False
         return True
     finally:
         w.close()
@@ -605,7 +625,7 @@ def h18c_long(kind: int, pos: int, akind: int) -> bool:
         if track.reached():
             return False
         if w.viol:
-            return track.fail("; ".join(w.viol))
+            return False
         return True
     finally:
         w.close()
@@ -793,9 +813,9 @@ def shards(tier: str) -> list:
     # B. same-turn interleavings: events are injected without running the loop in between
     scen("events injected into the same loop turn unless time is advanced", [S], L, settle=0, split=sp)
     # C. attempts that complete without ever suspending
-    scen("zero-delay attempts", [S], L, d1=0, d2=0, split=sp)
+    scen("zero-delay attempts (start- and finish-phase failures coincide)", [S], L, k0s=(0, 2, 5), outc="0,2,5", d1=0, d2=0, split=True)
     # D. slow connect: the retry timer of an earlier failure fires while a record-triggered attempt is connecting
-    scen("connect phase takes 3 s (stale retry timer vs record-triggered attempt)", [S, T, E_DELTA], L, k0s=(2,), outc="0,2", d1=3, d2=0)
+    scen("connect phase takes 3 s (stale retry timer vs record-triggered attempt)", [S, T, E_DELTA], L, k0s=(2,), outc="0,2", d1=3, d2=0, split=True)
     # E. name derived from the address / unknown name / library-created zeroconf / Zeroconf passed to the manager
     for nm, zc in ((1, 0), (2, 0), (0, 1), (0, 2)):
         scen(f"name mode {nm}, zeroconf mode {zc}", [S], L - 1, name=nm, zc=zc)
@@ -810,8 +830,9 @@ def shards(tier: str) -> list:
              [S], 5, k0s=(0, 2), outc="0,2", split=True, evtab=(E_TIMER, E_END_UNEXP, E_MDNS_PTR, E_START, E_STOP))
     # chains
     for d in ((0, 0), (1, 1)):
-        out.append({"fn": "h18b_chain", "env": {"NCHAIN": 3 if quick else 4, "D1": d[0], "D2": d[1]}, "cond_timeout": 900 if quick else 2400,
-                    "desc": f"consecutive failures of symbolic kind (7 error classes each), then success, session end, new streak; phase delays {d}"})
+        for kind0 in range(1, 8):
+            out.append({"fn": "h18b_chain", "env": {"NCHAIN": 3 if quick else 4, "D1": d[0], "D2": d[1], "KIND0": kind0}, "cond_timeout": 900 if quick else 2400,
+                        "desc": f"consecutive failures, first of class {kind0}, the others symbolic over 7 error classes, then success, session end, new streak; phase delays {d}"})
     out.append({"fn": "h18c_long", "env": {"NLONG": 12 if quick else 16}, "cond_timeout": 900,
                 "desc": "12/16 consecutive failures of one symbolic non-auth class with an auth/encryption error at a symbolic position"})
     return out
